@@ -70,3 +70,39 @@ func JoinOf(elems []string, sep string) string { return strings.Join(elems, sep)
 //@ ensures len(res) >= 1 && fresh(res) && JoinOf(res, sep) == s
 //@ assigns none
 //@ end
+
+//@ ext (encoding/binary.bigEndian).PutUint16 func(e binary.ByteOrder, b []byte, v uint16)
+//@ requires len(b) >= 2
+//@ ensures b[0] == byte(v/256) && b[1] == byte(v%256) && string(b[2:]) == old(string(b[2:]))
+//@ assigns b[:]
+//@ pure
+//@ end
+
+//@ ext (encoding/binary.bigEndian).PutUint32 func(e binary.ByteOrder, b []byte, v uint32)
+//@ requires len(b) >= 4
+//@ ensures b[0] == byte(v/16777216) && b[1] == byte(v/65536%256) && b[2] == byte(v/256%256) && b[3] == byte(v%256) && string(b[4:]) == old(string(b[4:]))
+//@ assigns b[:]
+//@ pure
+//@ end
+
+//@ ext (encoding/binary.bigEndian).AppendUint16 func(e binary.ByteOrder, b []byte, v uint16) (res []byte)
+//@ ensures string(res) == old(string(b)) + U16(v)
+//@ ensures fresh(res) || Extends(res, b)
+//@ assigns spare(b)
+//@ end
+
+//@ ext (encoding/binary.bigEndian).AppendUint32 func(e binary.ByteOrder, b []byte, v uint32) (res []byte)
+//@ ensures string(res) == old(string(b)) + B1(byte(v/16777216)) + B1(byte(v/65536%256)) + B1(byte(v/256%256)) + B1(byte(v%256))
+//@ ensures fresh(res) || Extends(res, b)
+//@ assigns spare(b)
+//@ end
+
+// bytes.IndexByte: the first index of c in b, or -1.
+//
+//@ ext bytes.IndexByte func(b []byte, c byte) (i int)
+//@ ensures -1 <= i && i < len(b)
+//@ ensures i >= 0 ==> b[i] == c && forall(0, i, func(j int) bool { return b[j] != c })
+//@ ensures i == -1 ==> forall(0, len(b), func(j int) bool { return b[j] != c })
+//@ assigns none
+//@ pure
+//@ end
